@@ -10,7 +10,7 @@ EXTENDS MSCodec, Json
 
 CONSTANT MaxLen
 
-Alphabet == {QUOTE, BSL, SP, TAB, LF, CR, "\f", "n", "r", "t", "é"}     \* "\f": a whitespace character no writer escapes
+Alphabet == {QUOTE, BSL, SP, TAB, LF, CR, "\f", "n", "r", "t", "é", NBSP}     \* "\f": a whitespace character no writer escapes
 
 VARIABLE t
 Init == t = <<>>
